@@ -62,6 +62,7 @@ struct Sim {
   std::string buf;
   int trace_fd{-1};
   std::string trace_path;
+  std::string last_throw; // Oomd:: frames of the most recent __cxa_throw
 };
 extern Sim g;
 
